@@ -1035,7 +1035,16 @@ func pathIs(v ssa.Value, names ...string) bool {
 }
 
 func pathEndsWith(v ssa.Value, names ...string) bool {
-	_, p := accessPath(v)
+	root, p := accessPath(v)
+	// the parameter of a single-call helper continues with the path of the argument
+	for i := 0; i < 2 && len(p) < len(names); i++ {
+		b := bindParam(root)
+		if b == root {
+			break
+		}
+		r2, p2 := accessPath(b)
+		root, p = r2, append(append([]string{}, p2...), p...)
+	}
 	if len(p) < len(names) {
 		return false
 	}
@@ -1294,4 +1303,33 @@ func phiAwareReachT(b *ssa.BasicBlock, i int, entry *ssa.BasicBlock, p func(Fact
 		}
 	}
 	return seen, trav
+}
+
+// instrAt: an instruction that takes effect within fn, and where: the instruction itself, or - for
+// the body of a same-package helper that fn calls at exactly one place - the call of that helper.
+type instrAt struct {
+	In ssa.Instruction
+	At ssa.Instruction
+}
+
+// withHelperBodies lists fn's instructions plus those of its single-call helpers (depth 1).
+func withHelperBodies(fn *ssa.Function) []instrAt {
+	var out []instrAt
+	eachInstr(fn, func(in ssa.Instruction) { out = append(out, instrAt{in, in}) })
+	if gWorld == nil {
+		return out
+	}
+	for _, ci := range callsIn(fn) {
+		callee := ci.Common().StaticCallee()
+		if callee == nil || callee.Blocks == nil || callee == fn || fnPkgPath(callee) != fnPkgPath(fn) {
+			continue
+		}
+		edges := gWorld.CG().In[callee]
+		if len(edges) != 1 || edges[0].Kind != "static" {
+			continue
+		}
+		at := ci.(ssa.Instruction)
+		eachInstr(callee, func(in ssa.Instruction) { out = append(out, instrAt{in, at}) })
+	}
+	return out
 }
